@@ -1,8 +1,9 @@
 (* Extraction for the `front` cluster (C12, C11). ExtrOcamlBasic only. *)
 From Coq Require Import Extraction ExtrOcamlBasic ZArith NArith.
-From LV Require Import Model.Frontend.
+From LV Require Import Model.Frontend Model.PoolSM.
 Extraction Language OCaml.
 Separate Extraction
   BinInt.Z.add BinInt.Z.compare BinNat.N.add
   Frontend.parse_query Frontend.parse_and_normalize Frontend.output_names
-  Frontend.output_slice Frontend.combined_limit.
+  Frontend.output_slice Frontend.combined_limit
+  PoolSM.run_checked PoolSM.run.
